@@ -194,7 +194,7 @@ class ModelInterp(MiniEval):
             return base.attrs[attr]
         # checker-made classes and their instances (class objects with bases, for code that climbs __bases__)
         if isinstance(base, type) and getattr(base, '_verif_standin', False):
-            if attr in ('__name__', '__qualname__', '__bases__', '__mro__') or (not attr.startswith('__') and hasattr(base, attr)):
+            if attr in ('__name__', '__qualname__', '__bases__', '__mro__', '__module__') or (not attr.startswith('__') and hasattr(base, attr)):
                 v = getattr(base, attr)
                 return tuple(b for b in v if b is not object) if attr in ('__bases__', '__mro__') else v
         if getattr(type(base), '_verif_standin', False) and not isinstance(base, type):
